@@ -130,6 +130,11 @@ def check_array(ctx, case):
     want = [M.OVERFLOW(r, s, w, overflow) for r in rs]
     sig = 'array/%s/%s' % (how, overflow)
     inp = list(ks) if how.startswith('list') else np.array(ks, dtype=object)
+    if how.startswith('npmix'):
+        # a list / tuple in which the elements that fit are numpy integer scalars and the others python integers
+        inp = [np.int64(k) if -(1 << 63) <= k < (1 << 63) and i % 3 != 2 else np.int32(k) if abs(k) < (1 << 31) else int(k) for i, k in enumerate(ks)]
+        if how.startswith('npmix-tuple'):
+            inp = tuple(inp)
     before = repr(inp)
     def build():
         if not how.startswith('setitem'):
@@ -329,7 +334,7 @@ def task_grid(ctx, words, nrand, seed):
                     big = [k for k in codes if abs(k) >= (1 << 63)][:6]
                     mixed = [codes[0], 5, codes[-1], -3 if s else 3, (1 << 64) - 1, 7]
                     for name, arr in (('homog', big), ('mixed', mixed), ('inrange-mixed', [hi, 1, lo, 2, (1 << 63), 0])):
-                        for how in ('list-raw', 'object-raw', 'list-value', 'setitem-raw', 'setitem-value'):
+                        for how in ('list-raw', 'object-raw', 'list-value', 'setitem-raw', 'setitem-value', 'npmix-raw', 'npmix-value', 'npmix-tuple-raw'):
                             if how.endswith('value') and f > w // 2:
                                 continue
                             a2 = [k >> f for k in arr] if how.endswith('value') else arr
